@@ -65,6 +65,8 @@ def run(chk):
     logorder.run(chk)
     from lib import emitreport
     emitreport.run(chk)
+    from lib import physidmask
+    physidmask.run(chk)
     from lib import sectionend
     sectionend.run_identity(chk)
     return chk.finish(
